@@ -180,3 +180,78 @@ func VerifC02Fill(s zoekt.Searcher, doc uint32, cs []VerifC02Cand, numContextLin
 	}
 	return lm, cm, cp.err
 }
+
+// VerifC02Node describes a match tree for VerifC02GatherTree. Op: "atom" (Kind as in VerifC02Atom, Cands),
+// "other" (a leaf gatherMatches does not collect from: a docMatchTree), "and", "or", "andline" (children Ch),
+// "not", "novisit", "filename", "boost", "symsubstr" (one child; "symsubstr" wraps a Kind-0 atom, any other child
+// is used as it is). Known is the value stored in the `known` map for the node; KnownSet false = no entry.
+type VerifC02Node struct {
+	Op       string
+	Kind     int
+	Cands    []VerifC02Cand
+	Known    bool
+	KnownSet bool
+	Ch       []VerifC02Node
+}
+
+func verifC02Build(n VerifC02Node, known map[matchTree]bool) matchTree {
+	var mt matchTree
+	kids := func() []matchTree {
+		var out []matchTree
+		for _, c := range n.Ch {
+			out = append(out, verifC02Build(c, known))
+		}
+		return out
+	}
+	switch n.Op {
+	case "atom":
+		cs := verifC02ToCands(n.Cands)
+		switch n.Kind {
+		case 0:
+			mt = &substrMatchTree{current: cs}
+		case 1:
+			mt = &regexpMatchTree{found: cs}
+		case 2:
+			mt = &wordMatchTree{found: cs}
+		default:
+			mt = &symbolRegexpMatchTree{found: cs}
+		}
+	case "other":
+		mt = &docMatchTree{reason: "verif"}
+	case "and":
+		mt = &andMatchTree{children: kids()}
+	case "or":
+		mt = &orMatchTree{children: kids()}
+	case "andline":
+		mt = &andLineMatchTree{andMatchTree{children: kids()}}
+	case "not":
+		mt = &notMatchTree{child: verifC02Build(n.Ch[0], known)}
+	case "novisit":
+		mt = &noVisitMatchTree{verifC02Build(n.Ch[0], known)}
+	case "filename":
+		mt = &fileNameMatchTree{child: verifC02Build(n.Ch[0], known)}
+	case "boost":
+		mt = &boostMatchTree{child: verifC02Build(n.Ch[0], known), boost: 2}
+	case "symsubstr":
+		child := verifC02Build(n.Ch[0], known)
+		if st, ok := child.(*substrMatchTree); ok {
+			mt = &symbolSubstrMatchTree{substrMatchTree: st}
+		} else {
+			mt = child
+		}
+	default:
+		panic("VerifC02Node: unknown op " + n.Op)
+	}
+	if n.KnownSet {
+		known[mt] = n.Known
+	}
+	return mt
+}
+
+// VerifC02GatherTree runs the real indexData.gatherMatches for a document named `name` over the described match tree.
+func VerifC02GatherTree(name []byte, root VerifC02Node) []VerifC02Cand {
+	d := &indexData{fileNameContent: name, fileNameIndex: []uint32{0, uint32(len(name))}}
+	known := map[matchTree]bool{}
+	mt := verifC02Build(root, known)
+	return verifC02FromCands(d.gatherMatches(0, mt, known))
+}
